@@ -10,7 +10,8 @@ Extracted (and tied by `reflexivity` to the configurations the theorems of Props
                                       cache_scope overrides for cache=False / prov=False, the guard around the
                                       cache=False override (none / definition-time scope is BACKEND: a variant the
                                       theorems refute) and the scope _subrun_root_task is defined with
-  gen_handback    : handback_cfg   -- endings of Scheduler.run / extend_run, the dict of _subrun_root_task, `then`
+  gen_handback    : handback_cfg   -- endings of Scheduler.run / extend_run, the dict of _subrun_root_task (incl. whether a
+                                      failed extending sub-execution is raised or returned as a value: two variants), `then`
   gen_wiring      : wiring         -- where execution id / parent job of the sub-scheduler's jobs come from
   gen_config_args : list rtarg     -- @task(config_args=[...]) of _subrun_root_task: what is left out of its cache identity
   gen_root_parts  : list concrete_part -- needs_root_task: which parts of a top-level call must be concrete for it to be
@@ -630,6 +631,16 @@ def extract_root_task(mod):
             seq.append("init")
         elif isinstance(s, ast.If) and src(s.test) == "not new_execution":
             ext = [src(x) for x in s.body]
+            # two shapes: the extend_run dict is merged as it is (a failure travels on as a VALUE of this task), or
+            # `if "error" in result: raise result["error"]` first (the failure fails this task, as run() does)
+            out["raises_error"] = False
+            if len(ext) == 4:
+                g2 = s.body[2]
+                if not (isinstance(g2, ast.If) and src(g2.test) == "'error' in result" and not g2.orelse
+                        and [src(x) for x in g2.body] == ["raise result['error']"]):
+                    fail("_subrun_root_task: unrecognised statement in the extend branch", g2)
+                out["raises_error"] = True
+                ext = ext[:2] + ext[3:]
             if len(ext) != 3 or not ext[0].startswith("result = sub_scheduler.extend_run("):
                 fail("_subrun_root_task: unrecognised extend branch", s)
             call = s.body[0].value
@@ -784,9 +795,9 @@ def translate(pins: dict | None = None, sched_source=None, db_source=None):
              sr["default_scope"], sr["default_valid"], coq_list(sr["allowed"]), ea["nocache_scope"], ea["noprov_scope"],
              ea["nocache_guard"], rt["defined_scope"]),
          "",
-         "Definition gen_handback : handback_cfg :=\n  mkHB %s\n    %s\n    %s %s %s %s %s\n    %s." % (
+         "Definition gen_handback : handback_cfg :=\n  mkHB %s\n    %s\n    %s %s %s %s %s %s\n    %s." % (
              coq_list(ends), coq_list(ext), coq_list(rt["init"]), b(rt["parent_is_jobinfo"]), b(rt["checks_dict"]),
-             rt["new_key"], coq_list(rt["final"]), coq_list(sr["then"])),
+             b(rt["raises_error"]), rt["new_key"], coq_list(rt["final"]), coq_list(sr["then"])),
          "",
          "Definition gen_wiring : wiring :=\n  mkW %s %s %s %s %s %s %s %s." % (
              w["exec"], w["parent"], b(rt["parent_is_jobinfo"]), new_exec, row_parent, row_exec, ea["job_exec"], ea["job_parent"]),
@@ -804,7 +815,9 @@ def translate(pins: dict | None = None, sched_source=None, db_source=None):
          "Lemma C38_tie_check_cache : gen_check_cache = shipped_check_cache.\nProof. reflexivity. Qed.",
          "Lemma C38_tie_getcache : gen_getcache = shipped_getcache.\nProof. reflexivity. Qed.",
          "Lemma C38_tie_subrun_opts : gen_subrun_opts = shipped_subrun_opts.\nProof. reflexivity. Qed.",
-         "Lemma C38_tie_handback : gen_handback = shipped_handback.\nProof. reflexivity. Qed.",
+         ("Lemma C38_tie_handback : gen_handback = shipped_handback.\nProof. reflexivity. Qed." if rt["raises_error"] else
+          "(* the failure of an extending sub-execution is returned as a value: the shape C38_value_shape_replays_failure_refuted is about *)\n"
+          "Lemma C38_tie_handback_value_shape : gen_handback = value_handback.\nProof. reflexivity. Qed."),
          "Lemma C38_tie_wiring : gen_wiring = shipped_wiring.\nProof. reflexivity. Qed.",
          ]
     info = {"ctx_order": ctx_order, "check_cache": cc, "getcache": gc, "subrun": sr, "evaluate_apply": ea, "run": ends, "extend_run": ext,
